@@ -426,6 +426,10 @@ class XMLReader(object):
             self.error("Attribute not supported, ignoring '%s=%s' " % (k, val), root)
 
         for node in root:
+            # Skip processing instructions, entities and comments.
+            if not isinstance(node.tag, str):
+                continue
+
             node.tag = node.tag.lower()
             self.is_valid_argument(node.tag, fmt, root, node)
             if node.tag in fmt.arguments_keys:
